@@ -190,3 +190,8 @@ Example ex_needs_parse :
   let s2 := SStr None None None None None None (Some ([97], [RLit 98])) in
   schema_eqb s1 s2 = true /\ verdict s1 (VStr [97]) = true /\ verdict s2 (VStr [97]) = false.
 Proof. vm_compute. auto. Qed.
+(* a date parameter that is neither a date nor a datetime cannot be declared; the model's
+   date comparison answers False for it, hence date_params_ok *)
+Example ex_needs_date_ok :
+  date_params_ok (SDate (Some VNone)) = false /\ schema_eqb (SDate (Some VNone)) (SDate (Some VNone)) = false.
+Proof. vm_compute. auto. Qed.
